@@ -52,8 +52,11 @@ def classify(tags, mode, st):
             return "X86-imm-class-prefix"
         if mode == 32 and wide == 32 and c == 16:
             return "X86-imm-class-prefix"
-        if mode == 16 and wide == 32 and c >= 64:
-            return None
+        # on a byte operation the bogus prefix does not change the meaning (C01 holds) but makes the encoding longer (C18)
+        if mode == 32 and wide == 8 and c == 16:
+            return "X86-imm-class-prefix"
+        if mode == 16 and wide == 8 and c >= 32:
+            return "X86-imm-class-prefix"
     if form == "mov r16,sreg":
         return "X86-mov-r16-sreg-rm"
     return None
